@@ -38,6 +38,9 @@ func VerifC12_Precedence() {
 	} else {
 		s = defineScalar(opt, kind, "name", opt.GetEnv(c12env))
 	}
+	// commands whose names are possible value texts: a value is a value
+	opt.NewCommand("cmd", "")
+	opt.NewCommand("json", "")
 	var args []string
 	switch cli {
 	case 1:
